@@ -4,6 +4,7 @@ import (
 	"encoding/binary"
 	"fmt"
 	"math"
+	"sort"
 	"strings"
 	"time"
 )
@@ -769,6 +770,8 @@ func (vm *VM) execGetIter() error {
 		for k := range objVal.Val {
 			iter.keys = append(iter.keys, k)
 		}
+		// Sorted, so that iteration does not depend on Go's randomised map order.
+		sort.Strings(iter.keys)
 	}
 
 	// Store iterator and push ID
